@@ -280,7 +280,13 @@ class Interp:
                     gv = global_element(self.prog, bv["n"], iv, fn.unit)
                     if gv is not NOGLOBAL:
                         return gv
-                key = self.key_of(p, e)
+                # the index was evaluated above: do not evaluate it a second time (str[i++] would advance twice)
+                if isinstance(iv, int):
+                    e2 = dict(e)
+                    e2["i"] = {"k": "int", "v": iv, "t": "int"}
+                    key = self.key_of(p, e2)
+                else:
+                    key = None
                 return self.read(p, key) if key is not None else TOP
             if e.get("t", "").endswith("]"):
                 return Ptr("arr:" + str(self.key_of(p, e)))
